@@ -119,6 +119,11 @@ def hasJunkFields : List (String × Json) → Bool
   | (_, v) :: r => hasJunk v || hasJunkFields r
 end
 
+/-- serde_json's recursion limit: a value nested in `base` containers may itself be at most
+`127 - base` containers deep.  It only bites where the value is *buffered* (`Content`, for the
+untagged enum); skipped unknown fields are consumed iteratively, without the limit. -/
+def recursionLimit : Nat := 127
+
 /-! ### Building blocks of `#[derive(Deserialize)]` -/
 
 /-- Result of looking a field up in the entries of a JSON object. -/
